@@ -29,12 +29,15 @@ pub open spec fn be_bytes(v: nat, k: nat) -> Seq<u8>
 }
 
 /// effect of writing `bytes` at position p of a growable byte container (std::io::Cursor<Vec<u8>> semantics:
-/// the gap between the old end and p, if any, is zero filled)
+/// the gap between the old end and p, if any, is zero filled).  An empty transfer changes nothing: std's
+/// write_all / byteorder never issue a call for zero bytes.
 pub open spec fn wr(d: Seq<u8>, p: int, bytes: Seq<u8>) -> Seq<u8> {
+    if bytes.len() == 0 { d } else {
     Seq::new(
         (if d.len() >= p + bytes.len() { d.len() } else { (p + bytes.len()) as nat }),
         |i: int| if p <= i < p + bytes.len() { bytes[i - p] } else if i < d.len() { d[i] } else { 0u8 },
     )
+    }
 }
 
 // ---------------------------------------------------------------- box header (ISO/IEC 14496-12 section 4.2)
@@ -83,4 +86,125 @@ pub open spec fn hdr_bytes(size: u64, ty: u32) -> Seq<u8> {
     } else {
         be_bytes(size as nat, 4) + be_bytes(ty as nat, 4)
     }
+}
+
+// ---------------------------------------------------------------- lemmas about wr / be_bytes (all proved, no admits)
+
+pub broadcast proof fn lemma_wr_empty(d: Seq<u8>, p: int)
+    ensures #[trigger] wr(d, p, Seq::<u8>::empty()) == d
+{
+    assert(wr(d, p, Seq::<u8>::empty()) =~= d);
+}
+
+/// two consecutive writes are one write of the concatenation
+pub broadcast proof fn lemma_wr_wr(d: Seq<u8>, p: int, a: Seq<u8>, b: Seq<u8>)
+    requires 0 <= p
+    ensures #[trigger] wr(wr(d, p, a), p + a.len(), b) == wr(d, p, a + b)
+{
+    assert(wr(wr(d, p, a), p + a.len(), b) =~= wr(d, p, a + b));
+}
+
+pub broadcast proof fn lemma_wr_len(d: Seq<u8>, p: int, a: Seq<u8>)
+    requires 0 <= p
+    ensures (#[trigger] wr(d, p, a)).len() == (if a.len() == 0 || d.len() >= p + a.len() { d.len() } else { (p + a.len()) as nat })
+{
+}
+
+pub broadcast proof fn lemma_be_bytes_len(v: nat, k: nat)
+    ensures (#[trigger] be_bytes(v, k)).len() == k
+    decreases k
+{
+    if k > 0 { lemma_be_bytes_len(v / 256, (k - 1) as nat); }
+}
+
+pub broadcast group group_stream {
+    lemma_wr_empty,
+    lemma_wr_wr,
+    lemma_wr_len,
+    lemma_be_bytes_len,
+}
+
+/// compact box header announcing `total` bytes of type `ty` at position p
+pub open spec fn hdr_at(d: Seq<u8>, p: int, total: u64, ty: u32) -> bool {
+    if total > 0xffff_ffff {
+        be32(d, p) == 1 && be32(d, p + 4) == ty && be64(d, p + 8) == total
+    } else {
+        be32(d, p) == total && be32(d, p + 4) == ty
+    }
+}
+
+/// a write of n bytes at p changed nothing else: earlier bytes are kept, the container only grew to p + n
+pub open spec fn frame_outside(o: Seq<u8>, n: Seq<u8>, p: int, len: int) -> bool {
+    &&& n.len() == (if o.len() >= p + len { o.len() } else { (p + len) as nat })
+    &&& forall|i: int| 0 <= i < o.len() && !(p <= i < p + len) ==> n[i] == o[i]
+}
+
+// ---- explicit forms of be_bytes for the widths the format uses (recursion unfolded once and for all)
+pub open spec fn byte_of(v: nat, k: nat) -> u8 { ((v / pow256(k)) % 256) as u8 }
+
+pub open spec fn pow256(k: nat) -> nat {
+    if k == 0 { 1 } else if k == 1 { 0x100 } else if k == 2 { 0x10000 } else if k == 3 { 0x1000000 }
+    else if k == 4 { 0x100000000 } else if k == 5 { 0x10000000000 } else if k == 6 { 0x1000000000000 }
+    else { 0x100000000000000 }
+}
+
+pub broadcast proof fn lemma_be_bytes_1(v: nat)
+    ensures #[trigger] be_bytes(v, 1) == seq![byte_of(v, 0)]
+{
+    reveal_with_fuel(be_bytes, 2);
+    assert(be_bytes(v, 1) =~= seq![byte_of(v, 0)]);
+}
+
+pub broadcast proof fn lemma_be_bytes_2(v: nat)
+    ensures #[trigger] be_bytes(v, 2) == seq![byte_of(v, 1), byte_of(v, 0)]
+{
+    reveal_with_fuel(be_bytes, 3);
+    assert(be_bytes(v, 2) =~= seq![byte_of(v, 1), byte_of(v, 0)]);
+}
+
+pub broadcast proof fn lemma_be_bytes_3(v: nat)
+    ensures #[trigger] be_bytes(v, 3) == seq![byte_of(v, 2), byte_of(v, 1), byte_of(v, 0)]
+{
+    reveal_with_fuel(be_bytes, 4);
+    assert(v / 256 / 256 == v / 0x10000) by(nonlinear_arith);
+    assert(be_bytes(v, 3) =~= seq![byte_of(v, 2), byte_of(v, 1), byte_of(v, 0)]);
+}
+
+pub broadcast proof fn lemma_be_bytes_4(v: nat)
+    ensures #[trigger] be_bytes(v, 4) == seq![byte_of(v, 3), byte_of(v, 2), byte_of(v, 1), byte_of(v, 0)]
+{
+    reveal_with_fuel(be_bytes, 5);
+    assert(v / 256 / 256 == v / 0x10000) by(nonlinear_arith);
+    assert(v / 256 / 256 / 256 == v / 0x1000000) by(nonlinear_arith);
+    assert(be_bytes(v, 4) =~= seq![byte_of(v, 3), byte_of(v, 2), byte_of(v, 1), byte_of(v, 0)]);
+}
+
+pub broadcast proof fn lemma_be_bytes_8(v: nat)
+    ensures #[trigger] be_bytes(v, 8) == seq![byte_of(v, 7), byte_of(v, 6), byte_of(v, 5), byte_of(v, 4),
+                                             byte_of(v, 3), byte_of(v, 2), byte_of(v, 1), byte_of(v, 0)]
+{
+    reveal_with_fuel(be_bytes, 9);
+    assert(v / 256 / 256 == v / 0x10000) by(nonlinear_arith);
+    assert(v / 256 / 256 / 256 == v / 0x1000000) by(nonlinear_arith);
+    assert(v / 256 / 256 / 256 / 256 == v / 0x100000000) by(nonlinear_arith);
+    assert(v / 256 / 256 / 256 / 256 / 256 == v / 0x10000000000) by(nonlinear_arith);
+    assert(v / 256 / 256 / 256 / 256 / 256 / 256 == v / 0x1000000000000) by(nonlinear_arith);
+    assert(v / 256 / 256 / 256 / 256 / 256 / 256 / 256 == v / 0x100000000000000) by(nonlinear_arith);
+    assert(be_bytes(v, 8) =~= seq![byte_of(v, 7), byte_of(v, 6), byte_of(v, 5), byte_of(v, 4),
+                                   byte_of(v, 3), byte_of(v, 2), byte_of(v, 1), byte_of(v, 0)]);
+}
+
+/// reading back what a big-endian write put there
+pub broadcast proof fn lemma_be16_of_bytes(d: Seq<u8>, p: int, v: nat)
+    requires 0 <= p, p + 2 <= d.len(), v < 0x10000, d[p] == byte_of(v, 1), d[p + 1] == byte_of(v, 0)
+    ensures #[trigger] be16(d, p) == v, #[trigger] byte_of(v, 1) == d[p]
+{
+}
+
+pub broadcast group group_be_bytes {
+    lemma_be_bytes_1,
+    lemma_be_bytes_2,
+    lemma_be_bytes_3,
+    lemma_be_bytes_4,
+    lemma_be_bytes_8,
 }
